@@ -356,6 +356,91 @@ pub mod trace {
         json!({"ccys": ccys, "order": order, "names": names, "re": re, "g": g, "kinds": kinds, "vars": present, "hp": hp, "h": h,
                "quotes": quotes, "unknown_none": f.rate(&outsider, &cc[0]).is_none()})
     }
+    // ---- curves and splines ---------------------------------------------------------------------------
+    fn arc_id<T>(a: &std::sync::Arc<T>) -> i64 {
+        ((std::sync::Arc::as_ptr(a) as usize as u64) % 2147483647) as i64
+    }
+    /// a number with everything the specification reads: value, names, first-order array, stored second-order array
+    /// and the Hessian read back by the number's own names
+    pub fn number_full_json(n: &Number) -> Value {
+        match n {
+            Number::F64(f) => json!({"k": "F", "re": fj(*f)}),
+            Number::Dual(d) => {
+                let vars: Vec<String> = d.vars().iter().cloned().collect();
+                json!({"k": "D1", "re": fj(d.real()), "vars": vars, "arc": arc_id(d.vars()),
+                       "d": d.dual().iter().map(|x| fj(*x)).collect::<Vec<_>>()})
+            }
+            Number::Dual2(d) => {
+                use crate::dual::Gradient2;
+                let vars: Vec<String> = d.vars().iter().cloned().collect();
+                let n = vars.len();
+                let g2 = d.gradient2(vars.clone());
+                let raw: Vec<Value> = (0..n).map(|i| Value::Array((0..n).map(|j| fj(d.dual2()[[i, j]])).collect())).collect();
+                let h: Vec<Value> = (0..n).map(|i| Value::Array((0..n).map(|j| fj(g2[[i, j]])).collect())).collect();
+                json!({"k": "D2", "re": fj(d.real()), "vars": vars, "arc": arc_id(d.vars()),
+                       "d": d.dual().iter().map(|x| fj(*x)).collect::<Vec<_>>(), "raw2": raw, "d2": h})
+            }
+        }
+    }
+    /// time coordinates of a curve as integer multiples of a day (or of a minute if some carry a time of day);
+    /// None if a coordinate has seconds (then the event is not recorded)
+    fn time_unit(ts: &[i64]) -> Option<i64> {
+        if ts.iter().all(|t| t % 86400 == 0) {
+            Some(86400)
+        } else if ts.iter().all(|t| t % 60 == 0) {
+            Some(60)
+        } else {
+            None
+        }
+    }
+    /// one look-up on a node set through an interpolation rule (and, from `CurveDF::index_value`, its index value)
+    pub fn curve_lookup(
+        rule: &str,
+        nodes: &crate::curves::nodes::NodesTimestamp,
+        date: &NaiveDateTime,
+        idx: usize,
+        val: &Number,
+        index: Option<(f64, &Result<Number, String>)>,
+    ) {
+        use crate::curves::nodes::NodesTimestamp as NT;
+        let x = date.and_utc().timestamp();
+        let (keys, vals, ad): (Vec<i64>, Vec<Number>, u8) = match nodes {
+            NT::F64(m) => (m.keys().cloned().collect(), m.values().map(|v| Number::F64(*v)).collect(), 0),
+            NT::Dual(m) => (m.keys().cloned().collect(), m.values().map(|v| Number::Dual(v.clone())).collect(), 1),
+            NT::Dual2(m) => (m.keys().cloned().collect(), m.values().map(|v| Number::Dual2(v.clone())).collect(), 2),
+        };
+        let mut all = keys.clone();
+        all.push(x);
+        let unit = match time_unit(&all) {
+            Some(u) => u,
+            None => return,
+        };
+        let nj: Vec<Value> = keys.iter().zip(vals.iter()).map(|(k, v)| json!({"d": k / unit, "v": number_full_json(v)})).collect();
+        let mut q = json!({"x": x / unit, "idx": idx, "o": "ok", "val": number_full_json(val)});
+        let ib = match index {
+            None => json!([]),
+            Some((b, r)) => {
+                match r {
+                    Ok(v) => {
+                        q["ivo"] = json!("ok");
+                        q["iv"] = number_full_json(v);
+                    }
+                    Err(_) => {
+                        q["ivo"] = json!("err");
+                        q["iv"] = json!({"k": "dead"});
+                    }
+                }
+                json!([fj(b)])
+            }
+        };
+        emit(json!({"op": "curve", "ev": [{"op": "given", "rule": rule, "ib": ib, "unit": if unit == 60 { 1440 } else { 1 },
+                    "state": {"ad": ad, "nodes": nj, "q": [q]}}]}));
+    }
+    /// one outermost basis-function evaluation (`m` = 0 for the value entry point)
+    pub fn basis(f: &str, x: f64, i: usize, k: usize, t: &[f64], m: usize, val: f64) {
+        emit(json!({"op": "basis1", "fn": f, "x": fj(x), "i": i, "k": k, "t": t.iter().map(|v| fj(*v)).collect::<Vec<_>>(), "m": m, "val": fj(val)}));
+    }
+
     pub fn fx_history(ev: Vec<Value>) {
         emit(json!({"h": 0, "ev": ev}));
     }
